@@ -169,6 +169,9 @@ def gen_plan(prop, r, tier, run):
         g['clock_during'] = r.pick([1, 86400, 3 * 86400, -86400, 20])
     ops.append(g)
     if prop == 'C11':
+        if r.chance(0.12):
+            g0, _ = make_unstable(r, prog, g)
+            ops.insert(0, g0)
         run_op = {'op': 'run_script'}
         if r.chance(0.2):
             run_op['clock'] = r.pick([60, 86400, 40 * 86400, -3600])
@@ -195,8 +198,23 @@ def gen_plan(prop, r, tier, run):
                 ops.append(g3)
                 ops.append({'op': 'run_script'})
     else:
+        unstable = r.chance(0.2)
+        if unstable:
+            g0, e = make_unstable(r, prog, g)
+            ops.insert(0, g0)
         ops.append({'op': 'run_script'})
         ch = gen_change(r, prog, g)
+        if unstable and r.chance(0.8):
+            # ... and the change is to the number that used to vary
+            ch = {'op': 'peer_change', 'command': 'cmd_x',
+                  'kind': {'out': 'out', 'err': 'err',
+                           'write': 'file'}[e['t']],
+                  'how': 'alter_char', 'line': r.random(), 'pos': 0.99,
+                  'char': r.pick('0123456789'), 'new_line': 'x', 'sep': '',
+                  'prefer': 'session 424242'}
+            if e['t'] == 'write':
+                ch['file'] = [x for x in prog['effects']
+                              if x['t'] == 'write'].index(e)
         ops.append(ch)
         run2 = {'op': 'run_script', 'after_change': True}
         if r.chance(0.3) or ch['kind'] == 'none':
@@ -205,6 +223,31 @@ def gen_plan(prop, r, tier, run):
     for i, op in enumerate(ops):
         op['i'] = i
     return {'config': cfg, 'ops': ops}
+
+
+def make_unstable(r, prog, g):
+    """History: the test was first generated while the command's output
+    still changed from run to run; the command was then made repeatable and
+    the test generated again (same script, same reference paths, same
+    process).  Marks one text effect as varying and returns the earlier
+    generation op and that effect."""
+    cands = [e for e in prog['effects']
+             if e['t'] in ('out', 'err')
+             or (e['t'] == 'write' and 'text' in e)]
+    if not cands:
+        prog['effects'].insert(0, {'t': 'out', 'text': ''})
+        cands = [prog['effects'][0]]
+    e = r.pick(cands)
+    t = e['text']
+    if t and not t.endswith('\n'):
+        t += '\n'
+    e['text'] = t + 'session 424242\n'
+    e['vary'] = True
+    g0 = copy.deepcopy(g)
+    g0['unstable'] = True
+    g0['iterations'] = r.pick([2, 3])
+    g0.pop('clock_during', None)
+    return g0, e
 
 
 def gen_change(r, prog, g):
@@ -267,6 +310,7 @@ class Sim(object):
         self.popen_calls = 0
         self.clock_during = None
         self.same_tick = False
+        self.unstable = False
 
     def touch(self, path):
         self.ctimes[os.path.abspath(path)] = self.clock.t
@@ -318,6 +362,9 @@ class OsProxy(object):
         return getattr(os, name)
 
 
+VARY_TOKEN = 'session 424242'
+
+
 class SimPopen(object):
     def __init__(self, sim, command, stdin=None, stdout=None, stderr=None,
                  shell=False, cwd=None, close_fds=True, env=None, **kw):
@@ -342,11 +389,19 @@ class SimPopen(object):
             sim.clock.advance(sim.clock_during)
             sim.ctx.stats['faults']['clock_step_during_command'] += 1
         sim.clock.advance(dur / 2.0)
+        def text_of(e):
+            # while the command is still unstable, a marked effect carries a
+            # number that changes from run to run
+            if sim.unstable and e.get('vary'):
+                sim.ctx.stats['faults']['output_varies_between_runs'] += 1
+                return e['text'].replace(VARY_TOKEN, 'session %06d' % (
+                    424242 + sim.popen_calls))
+            return e['text']
         for e in prog['effects']:
             if e['t'] == 'out':
-                out.append(e['text'])
+                out.append(text_of(e))
             elif e['t'] == 'err':
-                err.append(e['text'])
+                err.append(text_of(e))
             elif e['t'] == 'write':
                 p = e['path']
                 if p.startswith('$TMPDIR/'):
@@ -357,7 +412,7 @@ class SimPopen(object):
                 os.makedirs(os.path.dirname(p), exist_ok=True)
                 with io.open(p, 'wb') as f:
                     f.write(bytes.fromhex(e['hex']) if 'hex' in e
-                            else e['text'].encode('utf-8'))
+                            else text_of(e).encode('utf-8'))
                 ap = os.path.abspath(p)
                 if sim.same_tick and ap in sim.ctimes:
                     sim.ctx.stats['faults']['ctime_same_tick'] += 1
@@ -579,6 +634,7 @@ def run_gentest(ctx, op):
     sim.popen_calls = 0
     sim.clock_during = op.get('clock_during')
     sim.same_tick = bool(op.get('same_tick'))
+    sim.unstable = bool(op.get('unstable'))
     if sim.clock_during is not None:
         ctx.nontrivial = True
     outcome, exc = 'ok', None
@@ -611,6 +667,7 @@ def run_gentest(ctx, op):
             raise
         outcome, exc = 'error', e
     sim.clock_during = None
+    sim.unstable = False
     after = fsaudit.snapshot(roots)
     delta = fsaudit.diff(before, after, ignore_mtime=True)
     cls = text_class(ctx, prog)
@@ -622,6 +679,13 @@ def run_gentest(ctx, op):
     ctx.events.append(ev)
     ctx.last_gen = None
     ctx.baseline_pass = None
+    if op.get('unstable'):
+        # an earlier generation for a command that was not yet repeatable:
+        # history only, the properties say nothing about it
+        ctx.shape.append('Gu:%s' % outcome)
+        ctx.stats['probes']['earlier_generation_while_unstable'] += 1
+        ctx.nontrivial = True
+        return
     expect_exit = (code != 0 and not op['non_zero_exit'])
     ctx.shape.append('G%d%s%s%s:%s:%s' % (
         op['iterations'], 'O' if op['no_stdout'] else '',
@@ -1036,6 +1100,10 @@ def change_text(ctx, op, text, ex):
             ctx.stats['abstain']['no_must_check_line'] += 1
             return None
         i = cands[int(op['line'] * len(cands)) % len(cands)]
+        pref = [c for c in cands if op.get('prefer')
+                and op['prefer'] in lines[c]]
+        if pref:
+            i = pref[0]
         if how == 'remove_line':
             del lines[i]
         elif how == 'join_lines':
